@@ -220,7 +220,8 @@ def _get_array_type(x):
     # for object arrays, try to infer dtype
     if data_type is pandas_engine.Engine.dtype("object"):
         inferred_alias = pd.api.types.infer_dtype(x, skipna=False)
-        if inferred_alias != "string":
+        # an empty object array has no elements to infer a type from
+        if inferred_alias not in ("string", "empty"):
             data_type = pandas_engine.Engine.dtype(inferred_alias)
     return data_type
 
